@@ -103,7 +103,103 @@ def check_case(ctx, case, prop="C01", nontrivial=None, extra_labels=(), check_ar
             return
 
 
+# ---- promotion grid: where does each operand of an arithmetic operator live, and what is its declared type ----
+# An operand's DECLARED type decides between integer and floating-point arithmetic, not the value it happens to
+# hold: `float t = a;` with an int a makes t a float, and t / u is then a true division.
+SOURCES = {
+    # name: (declared type, set-up statements, expression); {v} = the int parameter feeding it, {n} = a unique suffix
+    "int-param": ("int", "", "{v}"),
+    "float-param": ("float", "", "{x}"),
+    "int-local": ("int", "int il{n} = {v};", "il{n}"),
+    "float-local-from-int": ("float", "float fl{n} = {v};", "fl{n}"),
+    "float-local-from-literal": ("float", "float fc{n} = {lit};", "fc{n}"),
+    "float-local-assigned-int": ("float", "float fa{n}; fa{n} = {v};", "fa{n}"),
+    "float-global-from-int": ("float", "gf{n} = {v};", "gf{n}"),
+    "float-field-from-int": ("float", "sv.f{n} = {v};", "sv.f{n}"),
+    "float-element-from-int": ("float", "fe[{n}] = {v};", "fe[{n}]"),
+    "int-literal": ("int", "", "{lit}"),
+}
+GRID_INPUTS = [(7, 2, 2.5, -0.5), (-7, 2, 0.75, 3.0), (1, 3, -1.5, 8.0), (9, -4, 6.25, 0.5)]
+
+
+class GridCase:
+    def __init__(self, op, ls, rs, form):
+        self.op, self.ls, self.rs, self.form = op, ls, rs, form
+
+    def parts(self):
+        lt, lsetup, lexpr = SOURCES[self.ls]
+        rt, rsetup, rexpr = SOURCES[self.rs]
+        fmt_l = dict(v="a", x="x", n=0, lit="{LL}")
+        fmt_r = dict(v="b", x="y", n=1, lit="{RL}")
+        return lt, lsetup.format(**fmt_l), lexpr.format(**fmt_l), rt, rsetup.format(**fmt_r), rexpr.format(**fmt_r)
+
+    def source(self, a=7, b=2):
+        lt, lsetup, lexpr, rt, rsetup, rexpr = self.parts()
+        res = "float" if "float" in (lt, rt) else "int"
+        pre = "float gf0; float gf1; struct SV { float f0; float f1; }\n"
+        body = "SV sv; float[2] fe; %s %s " % (lsetup, rsetup)
+        if self.form == "return":
+            body += "return %s %s %s;" % (lexpr, self.op, rexpr)
+        elif self.form == "local":
+            body += "%s r = %s %s %s; return r;" % (res, lexpr, self.op, rexpr)
+        else:  # compound: only when the left operand is a float variable
+            body += "%s %s= %s; return %s;" % (lexpr, self.op, rexpr, lexpr)
+            res = lt
+        src = pre + "export function f(int a, int b, float x, float y) -> %s { %s }\n" % (res, body)
+        return src.replace("{LL}", str(a)).replace("{RL}", str(b))
+
+    def show(self):
+        return "// %s  left=%s right=%s form=%s\n%s" % (self.op, self.ls, self.rs, self.form, self.source())
+
+
+def grid_items():
+    out = []
+    for op in "+-*/":
+        for ls in SOURCES:
+            for rs in SOURCES:
+                for form in ("return", "local", "compound"):
+                    if form == "compound" and (SOURCES[ls][0] != "float" or ls == "float-param" and False or "literal" in ls and ls == "int-literal"):
+                        continue
+                    out.append(GridCase(op, ls, rs, form))
+    return out
+
+
+def grid_case(ctx, case):
+    lt, _, _, rt, _, _ = case.parts()
+    ctx.label("grid:%s:%s-%s" % (case.op, lt, rt))
+    for a, b, x, y in GRID_INPUTS:
+        ctx.count()
+        src = case.source(a, b)
+        lv = {"int-param": a, "float-param": x, "int-literal": a}.get(case.ls, a)
+        rv = {"int-param": b, "float-param": y, "int-literal": b}.get(case.rs, b)
+        if lt == "int" and rt == "int" and case.form != "compound":
+            if case.op == "/":
+                q = abs(lv) // abs(rv)
+                exp = -q if (lv < 0) != (rv < 0) else q
+            else:
+                exp = {"+": lv + rv, "-": lv - rv, "*": lv * rv}[case.op]
+        else:
+            fl, fr = float(lv), float(rv)
+            exp = {"+": fl + fr, "-": fl - fr, "*": fl * fr, "/": fl / fr}[case.op]
+        c = adapter.compile_src(src)
+        if not c.ok:
+            ctx.fail("rejected|" + c.stage + "|" + c.why()[:90], "well-typed program rejected: %s\n%s" % (c.why(), src), case)
+            return
+        vm = adapter.new_vm(adapter.link([c.ir]))
+        ran = adapter.invoke(vm, "f", {"a": a, "b": b, "x": x, "y": y}, budget=10000)
+        if not ran.ok:
+            ctx.fail("vm-exception|" + adapter.exc_sig(ran.exc), "VM raised %r; expected %r\n%s" % (ran.exc, exp, src), case)
+            return
+        if lt != rt or "from" in case.ls + case.rs or "assigned" in case.ls + case.rs:
+            ctx.nontrivial((src,))
+        if not same(ran.value, exp):
+            ctx.fail("wrong-value", "f(a=%d, b=%d, x=%r, y=%r) returned %r, the source says %r (declared operand types %s %s %s)\n%s" % (
+                a, b, x, y, ran.value, exp, lt, case.op, rt, src), case)
+            return
+
+
 def run(R):
+    R.enum("promotion-grid", grid_items, grid_case)
     R.hyp("core", gen.core_case(), check_case, examples=R.pick(300, 5000), shrink="ast")
     for k in ["iter:for", "iter:while", "iter:do", "break:for", "continue:for", "continue:while",
               "continue:do", "int-div", "mixed-promotion", "array-write", "field-write",
